@@ -11,7 +11,7 @@
    The theorems below are about the BINNING rules of the model (Model/Diagrams.member), for all
    strictly increasing edges and all values: "every valid case falls in exactly one bin". *)
 From Coq Require Import Reals ZArith List Bool Lra.
-From VF Require Import Base.Num Base.Vec Base.Event Model.Diagrams Proofs.C16_proofs.
+From VF Require Import Base.Num Base.Vec Base.Event Gen.Gen_interval Model.Diagrams Proofs.RList Proofs.C16_proofs Proofs.C16_hist.
 Import ListNotations.
 Local Open Scope R_scope.
 
@@ -48,6 +48,12 @@ Theorem C16_fill_polygon_covers_all_valid_points : forall x lo up,
    length (filter (fun p => notnan XR (fst p) && notnan XR (snd p)) (combine x up)))%nat.
 Proof. exact fill_polygon_length. Qed.
 
+(* -hist: the shares drawn add up to 100 % as soon as one value lies in a bin *)
+Theorem C16_hist_shares_add_up_to_100 : forall ivs v,
+  (exists iv, In iv ivs /\ count_within XR iv v <> Fin 0) ->
+  exists l, hist_percent XR ivs v = map (@Fin R) l /\ rsum l = 100.
+Proof. exact hist_percent_sums_to_100. Qed.
+
 (* non-vacuity *)
 Example C16_example : increasing [0; 1/2; 1] /\ [0; 1/2; 1] <> [] /\ 0 <= 1 <= last_edge [0; 1/2; 1].
 Proof. unfold last_edge; cbn. repeat split; try lra. discriminate. Qed.
@@ -60,3 +66,4 @@ Print Assumptions C16_left_open_bins_exactly_one.
 Print Assumptions C16_left_open_bins_lose_the_bottom_edge.
 Print Assumptions C16_obsfcst_bands_pair_symmetric_quantiles.
 Print Assumptions C16_fill_polygon_covers_all_valid_points.
+Print Assumptions C16_hist_shares_add_up_to_100.
